@@ -10,6 +10,7 @@
 EXTENDS KeepAlive, Json
 
 CaseJson == [pattern |-> script, T |-> thr0, end |-> endMode,
+             drain |-> drain, drainAt |-> drainedAt,
              nping |-> k, closeAt |-> closedAt, userAt |-> userAt, unit |-> Interval,
              final |-> pc, ticks |-> [i \in 1..Len(hist) |-> hist[i].at]]
 \* used as an invariant: evaluated once per distinct state, TRUE always
@@ -23,5 +24,6 @@ NeverClosed == closedAt < 0
 NeverStopped == pc # "stopped"
 NeverTolerated == ~(pc = "select" /\ cf > 0)
 NeverReset == ~(pc = "select" /\ cf = 0 /\ \E i \in 1..Len(hist) : hist[i].o \in Failures)
+NeverDrained == drainedAt < 0
 NeverLateClose == ~(pc = "closed" /\ userAt >= 0)
 =============================================================================
